@@ -26,16 +26,22 @@ fn req_of<'a>(ctx: &'a Context<'_>) -> &'a Arc<Req> { ctx.data_unchecked::<Arc<R
 fn leaf_int(ctx: &Context<'_>, id: &str, field: &str) -> i32 {
     req_of(ctx).lookup(id, field)["v"].as_str().and_then(|s| s.parse().ok()).unwrap_or(0)
 }
+fn leaf_str(ctx: &Context<'_>, id: &str, field: &str) -> String {
+    req_of(ctx).lookup(id, field)["v"].as_str().unwrap_or("").to_string()
+}
 
 /// The A/B/C family with one set of hints.  Parameters in the order of SLOTS in checks/C20_genfam.py:
 /// Query, Query.a, .b, .c, .node, .nodes, .u, .us, .n, A, A.tag, A.x, A.peer, A.buddy, B, B.tag, B.z, C, C.tag, C.v,
-/// then the MergedObject members: QueryExtra, .m12, .m21, .extra, MP, MP.mp1, MP.mp2, MQ, MQ.mq1, and the member order of
-/// the Query root.  M12 = MergedObject(MP, MQ), M21 = MergedObject(MQ, MP), Query = MergedObject(<root order>).
+/// then the MergedObject members: QueryExtra, .m12, .m21, .extra, MP, MP.mp1, MP.mp2, MQ, MQ.mq1, then the generic
+/// SimpleObject: QueryExtra.ibox, .sbox, Boxed<T> (object-level), Boxed.val, Boxed.fresh, and the member order of
+/// the Query root.  M12 = MergedObject(MP, MQ), M21 = MergedObject(MQ, MP), Query = MergedObject(<root order>);
+/// IntBox = Boxed<i32>, StrBox = Boxed<String> (concrete instantiations sharing ONE object-level cache_control).
 macro_rules! family {
     ($m:ident; [$($q:tt)*]; [$($qa:tt)*]; [$($qb:tt)*]; [$($qc:tt)*]; [$($qnode:tt)*]; [$($qnodes:tt)*]; [$($qu:tt)*]; [$($qus:tt)*]; [$($qn:tt)*];
      [$($a:tt)*]; [$($atag:tt)*]; [$($ax:tt)*]; [$($apeer:tt)*]; [$($abuddy:tt)*];
      [$($b:tt)*]; [$($btag:tt)*]; [$($bz:tt)*]; [$($c:tt)*]; [$($ctag:tt)*]; [$($cv:tt)*];
      [$($qx:tt)*]; [$($qxm12:tt)*]; [$($qxm21:tt)*]; [$($qxextra:tt)*]; [$($mp:tt)*]; [$($mp1:tt)*]; [$($mp2:tt)*]; [$($mq:tt)*]; [$($mq1:tt)*];
+     [$($qxibox:tt)*]; [$($qxsbox:tt)*]; [$($bx:tt)*]; [$($bxval:tt)*]; [$($bxfresh:tt)*];
      [$r1:ident, $r2:ident]) => {
         pub mod $m {
             use super::*;
@@ -91,6 +97,12 @@ macro_rules! family {
             pub struct M12(MP, MQ);
             #[derive(MergedObject)]
             pub struct M21(MQ, MP);
+            #[derive(SimpleObject)]
+            #[graphql(concrete(name = "IntBox", params(i32)), concrete(name = "StrBox", params(String)), $($bx)*)]
+            pub struct Boxed<T: OutputType> {
+                #[graphql($($bxval)*)] pub val: T,
+                #[graphql($($bxfresh)*)] pub fresh: i32,
+            }
             #[derive(Default)]
             pub struct QueryExtra;
             #[Object($($qx)*)]
@@ -98,6 +110,12 @@ macro_rules! family {
                 #[graphql($($qxm12)*)] async fn m12(&self, ctx: &Context<'_>) -> Option<M12> { id_of(&req_of(ctx).lookup("root", "m12"), "M12").map(|i| M12(MP(i.clone()), MQ(i))) }
                 #[graphql($($qxm21)*)] async fn m21(&self, ctx: &Context<'_>) -> Option<M21> { id_of(&req_of(ctx).lookup("root", "m21"), "M21").map(|i| M21(MQ(i.clone()), MP(i))) }
                 #[graphql($($qxextra)*)] async fn extra(&self, ctx: &Context<'_>) -> i32 { leaf_int(ctx, "root", "extra") }
+                #[graphql($($qxibox)*)] async fn ibox(&self, ctx: &Context<'_>) -> Option<Boxed<i32>> {
+                    id_of(&req_of(ctx).lookup("root", "ibox"), "IntBox").map(|i| Boxed { val: leaf_int(ctx, &i, "val"), fresh: leaf_int(ctx, &i, "fresh") })
+                }
+                #[graphql($($qxsbox)*)] async fn sbox(&self, ctx: &Context<'_>) -> Vec<Boxed<String>> {
+                    req_of(ctx).lookup("root", "sbox")["items"].as_array().map(|a| a.iter().filter_map(|w| id_of(w, "StrBox")).map(|i| Boxed { val: leaf_str(ctx, &i, "val"), fresh: leaf_int(ctx, &i, "fresh") }).collect()).unwrap_or_default()
+                }
             }
             #[derive(MergedObject, Default)]
             pub struct Query($r1, $r2);
